@@ -174,8 +174,12 @@ def gen_level(G, n, tier, scale=1.0, heavy=True):
         return "fp%d_%s" % (n, f)
 
     C = G.corners(n, nrand=3 if quick else 8)
+    full_C = C
+    if quick and unit > 300:
+        # the high levels see a thinner corner set in the quick tier (thorough: all of it)
+        C = C[:10] + rng.sample(C[10:-4], 10) + C[-4:]
     # cheap ops see every corner; product-bound ops a sample whose size follows the level cost
-    nprod = cnt(min(len(C) * 3, (200000 if quick else 900000) // unit), 12)
+    nprod = cnt(min(len(C) * 3, (60000 if quick else 600000) // unit), 10)
 
     def sample_pairs(m):
         prs = [(C[0], C[0]), (C[0], C[-4]), (C[1], C[-4]), (C[-4], C[1]), (C[5], C[5]), (C[-4], C[-4])]
@@ -278,7 +282,10 @@ def gen_level(G, n, tier, scale=1.0, heavy=True):
     # ---------------------------------------------------------------- Frobenius
     if has("frb"):
         xs = [G.rtok(n), rng.choice(C[7:])]
-        for j in list(range(0, n + 2)) + [2 * n, 2 * n + 1]:
+        pows = list(range(0, n + 2)) + [2 * n, 2 * n + 1]
+        if quick and unit > 300:
+            pows = sorted(set([0, 1, 2, 3, n // 2, n // 2 + 1, n - 1, n, n + 1]))
+        for j in pows:
             for a in xs[:(2 if unit <= 700 else 1)]:
                 G.line(op("frb"), k % 2, a, j, 0)
                 k += 1
